@@ -62,6 +62,9 @@ impl Rec {
     pub fn set_nontrivial(&mut self, b: bool) {
         self.nontrivial = b;
     }
+    pub fn is_nontrivial(&self) -> bool {
+        self.nontrivial
+    }
     /// classification label (histogram in the evidence)
     pub fn class(&mut self, c: &str) {
         if self.classes.len() < 64 {
@@ -239,17 +242,7 @@ impl Ctx {
     }
 
     fn case_seed(&self, section: &str, index: u64) -> [u8; 32] {
-        let mut h = fnv1a(self.prop.as_bytes());
-        h = super::util::fnv1a_extend(h, section.as_bytes());
-        let a = mix64(h ^ mix64(self.seed));
-        let b = mix64(a ^ mix64(index.wrapping_add(0x51ed)));
-        let mut out = [0u8; 32];
-        let mut x = b;
-        for i in 0..4 {
-            x = mix64(x.wrapping_add(i as u64));
-            out[i * 8..i * 8 + 8].copy_from_slice(&x.to_le_bytes());
-        }
-        out
+        case_seed_for(&self.prop, self.seed, section, index)
     }
 
     fn indices(&self, ord: u64, total: u64) -> Vec<u64> {
@@ -601,4 +594,19 @@ impl Ctx {
     pub fn section_stat(&self, name: &str) -> Option<&SectionStat> {
         self.report.sections.get(name)
     }
+}
+
+/// RNG seed of case `index` of `section`: depends only on (VERIF_SEED, property, section, index).
+pub fn case_seed_for(prop: &str, seed: u64, section: &str, index: u64) -> [u8; 32] {
+    let mut h = fnv1a(prop.as_bytes());
+    h = super::util::fnv1a_extend(h, section.as_bytes());
+    let a = mix64(h ^ mix64(seed));
+    let b = mix64(a ^ mix64(index.wrapping_add(0x51ed)));
+    let mut out = [0u8; 32];
+    let mut x = b;
+    for i in 0..4 {
+        x = mix64(x.wrapping_add(i as u64));
+        out[i * 8..i * 8 + 8].copy_from_slice(&x.to_le_bytes());
+    }
+    out
 }
